@@ -6,5 +6,17 @@ func init() {
 		"the overlay-instrumented build behaves like the uninstrumented one when the hook is off (statement-level calls to a no-op)",
 		"testing/synctest (go1.26.8) reports durable blocking correctly",
 	}
+	richRule := "episodes = generated client programs of the rich family (1-3 producers with single jobs and AddAll batches, a canceller, a purger, one lifecycle controller with a well-formed script, handle waiters, status and counter samplers; all worker kinds, both in-memory queues, concurrency 1-8, idle expiry on/off) x stall plans (unplanned runs, every single-stall placement at the first K hits of each reached site of the anchored functions [all sites in the thorough tier], sampled pairs); distinct = distinct (client-boundary event-order signature, stall plan); non-trivial = "
+	for id, nt := range map[string]string{
+		"C01": "the episode ran to its final quiescent point with all oracles evaluated",
+		"C03": "the episode reached quiescence with the worker running and the progress predicate evaluated",
+		"C05": "a handle waiter was parked before its job's function returned",
+		"C09": "a job was accepted or started inside a pause/stop window",
+		"C10": "a Close call overlapped the job's dispatch or execution",
+		"C16": "a status sampler observed at least one status change",
+		"C17": "counter samplers took samples while jobs were moving",
+	} {
+		props[id] = propInfo{Level: "exploration", Rule: richRule + nt, Assum: bubble}
+	}
 	props["C06"] = propInfo{Level: "exploration", Rule: "episodes = generated client programs (producers, cancels, purge, 1-2 barrier callers) x stall plans (unplanned runs, every single-stall placement at the first K hits of each reached site, sampled pairs); non-trivial = a barrier call overlapped a job's start or finish, or parked behind cancelled/purged jobs; distinct = distinct (client-boundary event-order signature, stall plan)", Assum: bubble}
 }
